@@ -25,7 +25,6 @@ RULE = (
 ASSUMPTIONS = [
     "the store reads time through the name `datetime` of its module (asserted: the fake clock must be read at least once per write, otherwise the run is inconclusive, exit 2); the real-time phase does not depend on this",
     "crash = process death; what a second connection sees is what survives",
-    "bulk calls carry id-less events only: a bulk list that also carries ids is executed as several elementary writes, the first of which is flushed and resets the age, so the call as a whole is not one 'event write' in the property's sense",
 ]
 ADV = [0, 0, 0.5, 3, 9, 11, 12, 60, 3600, 86400]
 
@@ -45,7 +44,7 @@ def strategy(draw, tier="quick"):
         st.fixed_dictionaries({"op": st.just("replace"), "b": b, "k": st.integers(0, 99), "e": ev}),
         st.fixed_dictionaries({"op": st.just("replace_last"), "b": b, "e": ev}),
         st.fixed_dictionaries({"op": st.just("delete"), "b": b, "k": st.integers(0, 99)}),
-        st.fixed_dictionaries({"op": st.just("bulk"), "b": b, "n": st.integers(0, 5), "seed": st.integers(0, 999), "upd": st.just(0)}),
+        st.fixed_dictionaries({"op": st.just("bulk"), "b": b, "n": st.integers(0, 5), "seed": st.integers(0, 999), "upd": st.integers(0, 2)}),
         st.fixed_dictionaries({"op": st.just("read"), "b": b, "kind": st.sampled_from(["get", "count"])}),
     )
     profile = draw(st.sampled_from([ADV, [0, 0, 0, 0.5, 12], [3, 9, 11, 12], [0, 60, 3600], ADV]))
